@@ -96,6 +96,21 @@ func c15RunSelf(c *Ctx, cs c15Case, count bool) {
 	c.Outcome(fmt.Sprintf("fail/%s/false", cs.DstForm))
 }
 
+// c15Values: nil pattern by bit mask for short lists; for long ones (more elements than a mask has
+// bits) mask -1 means no nil, any other value one nil at index 1.
+func c15Values(n, mask int, prefix string) []any {
+	if n <= 60 {
+		return patternValues(n, mask, prefix)
+	}
+	out := make([]any, n)
+	for i := range out {
+		if i != 1 || mask == -1 {
+			out[i] = fmt.Sprintf("%s%d", prefix, i)
+		}
+	}
+	return out
+}
+
 func c15Run(c *Ctx, cs c15Case, count bool) {
 	if strings.HasPrefix(cs.DstForm, "self") {
 		c15RunSelf(c, cs, count)
@@ -110,7 +125,7 @@ func c15Run(c *Ctx, cs c15Case, count bool) {
 	if cs.SrcFIFO {
 		src.SetFIFO(true)
 	}
-	srcVals := patternValues(cs.SrcLen, cs.SrcMask, "s")
+	srcVals := c15Values(cs.SrcLen, cs.SrcMask, "s")
 	if cs.SrcMixed {
 		pa := StackAlias(stackage.And().Push("pa"))
 		mixed := []any{stackage.Or().Push("in"), StackAlias(stackage.And().Push("al")), &pa, stackage.Cond("k", stackage.Eq, "v")}
@@ -127,7 +142,7 @@ func c15Run(c *Ctx, cs c15Case, count bool) {
 	} else {
 		dstNative = newStackKind(cs.DstKind)
 	}
-	dstVals := patternValues(cs.DstLen, cs.DstMask, "d")
+	dstVals := c15Values(cs.DstLen, cs.DstMask, "d")
 	dstNative.Push(dstVals...)
 	if dstNative.Len() != cs.DstLen || src.Len() != cs.SrcLen {
 		return // not constructible (capacity smaller than requested length)
@@ -339,6 +354,21 @@ func c15Cases(c *Ctx) []c15Case {
 								}
 							}
 						}
+					}
+				}
+			}
+		}
+	}
+	// the long regime: sources and destinations beyond any growth step or reservation threshold
+	for _, sl := range []int{31, 63, 64, 65, 100, 300, 1100} {
+		if c.Quick() && sl > 300 {
+			continue
+		}
+		for _, sm := range []int{-1, -2} {
+			for _, dl := range []int{0, 1, 70} {
+				for _, dc := range []int{0, dl + sl, dl + sl - 1, dl + sl + 900} {
+					for _, form := range []string{"native", "ptr-alias", "read-only"} {
+						out = append(out, c15Case{SrcLen: sl, SrcMask: sm, SrcFIFO: sl%2 == 0, SrcKind: "LIST", DstLen: dl, DstMask: -1, DstCap: dc, DstForm: form, DstKind: "AND", DstMtx: dl == 1})
 					}
 				}
 			}
